@@ -6,9 +6,9 @@
 EXTENDS Integers, Sequences, FiniteSets, TLC, Json
 
 Tr == ndJsonDeserialize("trace.ndjson")
-VARIABLES l, conf, live, st, seen, closed, dead, bad
+VARIABLES l, conf, zero, live, st, seen, closed, dead, bad
 \* conf: set of keys; live: [key -> id]; st: [id -> [avail, conn]]; seen, closed: sets of ids
-tvars == <<l, conf, live, st, seen, closed, dead, bad>>
+tvars == <<l, conf, zero, live, st, seen, closed, dead, bad>>
 Ev == Tr[l]
 Mark(why) == bad' = bad \cup {[cid |-> Ev.cid, l |-> l, why |-> why]}
 
@@ -16,7 +16,7 @@ ToSet(s) == {s[i] : i \in 1..Len(s)}
 SnapKeys(sn) == {sn[i].key : i \in 1..Len(sn)}
 SnapOf(sn, k) == CHOOSE i \in 1..Len(sn) : sn[i].key = k
 
-TInit == /\ l = 1 /\ conf = {} /\ live = <<>> /\ st = <<>> /\ seen = {} /\ closed = {}
+TInit == /\ l = 1 /\ conf = {} /\ zero = {} /\ live = <<>> /\ st = <<>> /\ seen = {} /\ closed = {}
          /\ dead = FALSE /\ bad = {}
 
 \* Layer-P verdict for a (re)load from (conf, live, st, seen, closed) to configuration c1 with
@@ -46,7 +46,7 @@ TLoad == /\ Ev.ev \in {"init", "reload"}
                              ELSE IF SnapKeys(sn) # c1 THEN "KeyNotSelectable" ELSE "ok")
                        ELSE Verdict(c1, sn, cl)
             IN /\ IF v = "ok" THEN bad' = bad /\ dead' = FALSE ELSE Mark(v) /\ dead' = TRUE
-               /\ conf' = c1
+               /\ conf' = c1 /\ zero' = ToSet(Ev.zero)
                /\ live' = [k \in SnapKeys(sn) |-> sn[SnapOf(sn, k)].id]
                /\ st' = [i \in {sn[j].id : j \in 1..Len(sn)} |->
                            LET o == sn[CHOOSE j \in 1..Len(sn) : sn[j].id = i]
@@ -56,20 +56,24 @@ TLoad == /\ Ev.ev \in {"init", "reload"}
 
 TTouch == /\ Ev.ev = "touch" /\ ~dead
           /\ st' = [st EXCEPT ![Ev.id] = [avail |-> Ev.avail, conn |-> Ev.conn]]
-          /\ UNCHANGED <<conf, live, seen, closed, dead, bad>>
+          /\ UNCHANGED <<conf, zero, live, seen, closed, dead, bad>>
 
 TSelect == /\ Ev.ev = "select" /\ ~dead
            /\ LET ids == {live[k] : k \in {x \in conf : x[1] = Ev.c}}
                   okids == {i \in ids : st[i].avail}
+                  subs == {<<k[1], k[2]>> : k \in {x \in conf : x[1] = Ev.c}}
+                  posDown == \E s \in subs : ~(s \in zero) /\ \A k \in conf : (k[1] = s[1] /\ k[2] = s[2]) => ~st[live[k]].avail
+                  subOf(i) == LET k == CHOOSE x \in conf : live[x] = i IN <<k[1], k[2]>>
               IN IF Ev.id = 0 - 1 THEN Mark("panic")
                  ELSE IF Ev.id = 0 THEN (IF okids = {} THEN bad' = bad ELSE Mark("SelectFailsAlthoughEligible"))
                  ELSE IF Ev.id \in closed THEN Mark("SelectReleased")
                  ELSE IF ~(Ev.id \in okids) THEN Mark("SelectNotLiveEligible")
+                 ELSE IF subOf(Ev.id) \in zero /\ ~posDown THEN Mark("SelectZeroWeightSubCluster")
                  ELSE bad' = bad
-           /\ UNCHANGED <<conf, live, st, seen, closed, dead>>
+           /\ UNCHANGED <<conf, zero, live, st, seen, closed, dead>>
 
 TSkip == /\ Ev.ev \in {"touch", "select", "reload"} /\ dead
-         /\ UNCHANGED <<conf, live, st, seen, closed, dead, bad>>
+         /\ UNCHANGED <<conf, zero, live, st, seen, closed, dead, bad>>
 
 TNext == l <= Len(Tr) /\ l' = l + 1 /\ (TLoad \/ TTouch \/ TSelect \/ TSkip)
 Report == (l = Len(Tr) + 1) => PrintT(ToJson([done |-> TRUE, consumed |-> l - 1, bad |-> bad]))
